@@ -496,6 +496,7 @@ func parentMain(args []string) int {
 					if res.hang {
 						// bounded progress: confirm alone before calling it a violation; a case which, alone, kills
 						// its process instead of hanging (a runaway recursion reaching the stack limit) is a death
+						mu.Unlock() // the confirmation runs take up to two watchdog periods: the other workers go on meanwhile
 						alone := confirmHang(p, bin, *tier, seed, res.crashedAt, work)
 						if !alone.hang && alone.crashedAt < 0 && res.crashedAt > c.from {
 							// not reproduced alone: the hang may depend on what the process did before (a bounded cache
@@ -507,6 +508,7 @@ func parentMain(args []string) int {
 								historyDependent = true
 							}
 						}
+						mu.Lock()
 						switch {
 						case alone.hang:
 							// did not return alone either: a violation of bounded progress, unless a recorded finding
